@@ -294,7 +294,7 @@ def c02_settings(prog):
     return out
 
 
-def c02_programs(tier, seed, rnd, alpha=None):
+def c02_programs(tier, seed, rnd, alpha=None, caps=None):
     from concurrent.futures import ThreadPoolExecutor
     q = tier == "quick"
     plans = SIG_PLANS if q else SIG_PLANS + SIG_PLANS_THOROUGH_ONLY
@@ -305,7 +305,8 @@ def c02_programs(tier, seed, rnd, alpha=None):
         c["MaxNodes"] = nq if q else nt
         c["SigsName"] = sg
         rs, res = gen.run_builder(c, "c02_" + sg, workers=4, timeout=1500, main_calls=True,
-                                  cap=(6000 if al is A_REF else 400) if q else 8000, rnd=random.Random(seed))
+                                  cap=((caps or (6000, 400))[0 if al is A_REF else 1]) if q else (caps or (8000, 8000))[0],
+                                  rnd=random.Random(seed))
         return sg, c, rs, res
 
     progs, results = [], []
@@ -316,3 +317,44 @@ def c02_programs(tier, seed, rnd, alpha=None):
         for p in rs:
             progs.append(with_vars(finalize(p), c))
     return progs, results
+
+
+# ---------------------------------------------------------------------------------------------
+# C03: optimiser-biased alphabet (few leaves, many stores/loads), the C01 control stream and routines
+A_OPT = dict(Leaves=["i1", "au0"], UnOps=[], BinOps=["-"], Stmts=["Store", "Pop", "LogU"],
+             Ctrl=["Seq2", "Seq3", "If2", "VSeq"], NVarsU=2, NVarsB=0)
+A_OPTM = dict(Leaves=["i1", "au0"], UnOps=[], BinOps=[], Stmts=["OptMacros", "Return"],
+              Ctrl=["Seq2", "Seq3", "If2", "If3", "While", "VSeq"], NVarsU=2, NVarsB=0)
+
+
+def c03_settings(prog):
+    out = []
+    for v in (2, 5, 7, 8, 9, 10):
+        out.append({"v": v, "ss": False})
+        out.append({"v": v, "ss": True})
+        if v >= 8 and prog.get("rt"):
+            out.append({"v": v, "ss": False, "fp": False})
+            out.append({"v": v, "ss": True, "fp": False})
+    return out
+
+
+def c03_programs(tier, seed, rnd):
+    import outcomes
+    q = tier == "quick"
+    plans = [("opt", A_OPT, 7 if q else 8, 1500 if q else 30000), ("optm", A_OPTM, 7 if q else 9, 2500 if q else 40000),
+             ("control", A_CONTROL, 6 if q else 7, 600 if q else 10000),
+             ("nest", A_NEST, 7 if q else 9, 300 if q else 6000)]
+    progs, results = [], []
+    for name, alpha, n, cap in plans:
+        c = dict(alpha)
+        c["MaxNodes"] = n
+        c["SigsName"] = "none"
+        rs, res = gen.run_builder(c, "c03_" + name, workers=8, timeout=1500, cap=cap, rnd=rnd)
+        results.append(res)
+        for p in rs:
+            progs.append(with_vars(finalize(p), c))
+    # every fourth recipe also with explicitly requested slot ids (user-numbered slots are compared at the end)
+    progs += [outcomes.with_requested_ids(p, base=20) for p in progs[::4] if p.get("vars")]
+    rp, rres = c02_programs(tier, seed, rnd, caps=(250, 100) if q else (3000, 3000))
+    progs += rp
+    return progs, results + rres
